@@ -471,6 +471,12 @@ def evP (I : FIface Raw Inst Ctx Val Hdr Err S) (ctx : Ctx) : PTree Raw → Res 
           else evP I ctx inner
         else .error (skipP I inner)
 
+/-- an outcome of the tree model (`Sugar.evItems`) as an outcome of the flat machine that leaves
+context `ctx` -/
+def withCtx (ctx : Ctx) : Except Err (List (Ev Inst Hdr)) → Res Err (List (Ev Inst Hdr) × Ctx)
+  | .error e => .error (.err e)
+  | .ok es => .ok (es, ctx)
+
 /-! ## laws -/
 
 /-- what the proof of "flat machine = tree reading" needs of the interface -/
